@@ -91,6 +91,14 @@ def slow_key(alg, slot, created=T0):
     return k
 
 
+def fast_s2k(octet=96):
+    """PGPKey.protect derives the key with the iterated+salted S2K count octet HashAlgorithm.<h>._tuned_count (default 255 =
+    65 MB hashed, ~0.13 s per key packet per protect/unlock). The harnesses lower this tunable DATA attribute in their
+    worker processes (96 = 65536 octets); no pgpy code is replaced."""
+    for h in HashAlgorithm:
+        h._tuned_count = octet
+
+
 def new_key(alg, created, slot=0):
     if alg in ('rsa2048', 'dsa2048'):
         return slow_key(alg, slot)
